@@ -6,7 +6,7 @@
 From Coq Require Import List NArith ZArith Bool Permutation.
 From Verif Require Import Aries.Str Aries.Radix Aries.RadixProofs Aries.MuxProofs
   Aries.SegTrie Aries.SegTrieProofs Aries.Router Aries.RouterProofs
-  Aries.Tiers Aries.TiersProofs Aries.AriesGen Gen.AriesSkel.
+  Aries.Tiers Aries.TiersProofs Aries.Entry Aries.EntryProofs Aries.AriesGen Gen.AriesSkel Gen.AriesEntry.
 Import ListNotations.
 Local Open Scope N_scope.
 
@@ -202,6 +202,106 @@ Theorem C20_host_exact : forall sets h,
 Proof. exact host_exact. Qed.
 Print Assumptions C20_host_exact.
 
+(** * Round 2 *)
+
+(** ** The HTTP entry (aries/context.go NewContext, as in the source today) *)
+
+(** The routed string is exactly URL.Path; the route is its canonical
+    segment list (what [C20_route_canonical] and the Router theorems assume:
+    non-empty, slash-free segments), position 0; "directory" means "URL.Path
+    ends in a slash"; the host key is Req.Host, untouched. *)
+Theorem C20_entry_routes_url_path : forall u method host,
+  exists a, new_actx_with gen_ctx_path_src gen_ctx_route_src u method host = Some a /\
+    a_path a = u_path u /\ a_host a = host /\
+    c_routes (a_ctx a) = segs (u_path u) /\ Forall good_seg (c_routes (a_ctx a)) /\
+    c_pos (a_ctx a) = 0%nat /\ c_isdir (a_ctx a) = path_is_dir (u_path u) /\
+    c_method (a_ctx a) = method.
+Proof. exact gen_new_actx_spec. Qed.
+Print Assumptions C20_entry_routes_url_path.
+
+(** RawPath, EscapedPath and the request URI play no role. *)
+Theorem C20_entry_ignores_rawpath : forall u u' method host,
+  u_path u = u_path u' ->
+  new_actx_with gen_ctx_path_src gen_ctx_route_src u method host =
+  new_actx_with gen_ctx_path_src gen_ctx_route_src u' method host.
+Proof. exact gen_new_actx_ignores_raw. Qed.
+Print Assumptions C20_entry_ignores_rawpath.
+
+(** Leading, trailing and repeated slashes do not change the segments (the
+    trailing one only the file/directory flag). *)
+Theorem C20_segs_slashes : forall a b,
+  segs (slash :: a) = segs a /\
+  segs (a ++ [slash]) = segs a /\
+  segs (a ++ slash :: slash :: b) = segs (a ++ slash :: b).
+Proof. exact segs_slashes. Qed.
+Print Assumptions C20_segs_slashes.
+
+Theorem C20_segs_split : forall a b, segs (a ++ slash :: b) = segs a ++ segs b.
+Proof. exact segs_app_slash. Qed.
+Print Assumptions C20_segs_split.
+
+(** In the (trusted, stream-checked) model of net/http's request parsing: a
+    target without [%] is taken literally, and whatever the escapes were the
+    segments aries routes on are slash-free (an escaped slash has become a
+    separator). *)
+Theorem C20_unescape_plain : forall s, ~ In percent s -> unescape s = Some s.
+Proof. exact unescape_plain. Qed.
+Print Assumptions C20_unescape_plain.
+
+Theorem C20_entry_segments_canonical : forall r path host method,
+  http_parse r = HReq path host ->
+  exists a, new_actx (PUrl path [] [] []) method host = Some a /\
+            Forall good_seg (c_routes (a_ctx a)) /\ c_routes (a_ctx a) = segs path.
+Proof. exact parsed_segments_good. Qed.
+Print Assumptions C20_entry_segments_canonical.
+
+(** ** C.ErrCode (as in the source today): error class -> status *)
+Theorem C20_errcode_status : forall e,
+  status_with gen_errcode_table gen_errcode_default e =
+  match e with
+  | ENil => 200 | ENotFound => 404 | EInternal => 500
+  | EUnauthorized => 403 | EInvalidArg => 400 | EOther => 500
+  end.
+Proof. exact gen_status_spec. Qed.
+Print Assumptions C20_errcode_status.
+
+(** ** ServeInternal with handlers that leave the identity alone *)
+
+(** Every invocation of the guest, user and admin tiers sees an admin. *)
+Theorem C20_internal_all_gated : forall s c0,
+  frame_ok s ->
+  all_gated_ok s (fst (run gen_default_admin gen_serve_auth_prog s gen_serve_internal_prog c0)).
+Proof. exact gen_serve_internal_all_gated. Qed.
+Print Assumptions C20_internal_all_gated.
+
+(** The frame condition holds for handlers that do not touch the context. *)
+Theorem C20_frame_keeps_ctx : forall s h, keeps_ctx h -> preserves_adm s h.
+Proof. exact keeps_preserves. Qed.
+Print Assumptions C20_frame_keeps_ctx.
+
+(** ** Nil handlers, and the scope "register everything, then serve" *)
+
+(** A nil handler (nil Service or nil Func) is refused at registration with
+    the "function is nil" panic; Index(nil)/Default(nil) mean "none".  So no
+    registered node, index or default can be a nil function, and together
+    with [C20_router_no_panic] no request can panic inside the Router. *)
+Theorem C20_router_nil_handler : forall r p dir m,
+  gen_router_add_refuses_nil = true /\ gen_router_nil_index_is_none = true /\
+  router_add_svc r p None dir m = None /\
+  rt_index (set_index r None) = None /\ rt_miss (set_default r None) = None.
+Proof. exact gen_router_nil_handler. Qed.
+Print Assumptions C20_router_nil_handler.
+
+(** Concurrent registration is not supported by the code (plain maps, no
+    lock) and not used: the serving methods of Mux, Router, HostMux and both
+    tries contain no write to the routing structures (so concurrent SERVING
+    is read-only), and no package of the repository registers from inside a
+    handler or a goroutine.  All theorems above are about a structure that is
+    completely registered before it serves. *)
+Theorem C20_scope_register_then_serve : gen_serving_writes = [] /\ gen_late_registrations = [].
+Proof. exact gen_scope_register_then_serve. Qed.
+Print Assumptions C20_scope_register_then_serve.
+
 (** * Non-vacuity *)
 
 Definition sA : str := [97].            (* "a" *)
@@ -236,13 +336,15 @@ Proof. eexists. vm_compute. repeat split; reflexivity. Qed.
 
 (** "/a" is a directory, "/a/b" a GET-only file. *)
 Definition ex_router_ops : list router_op :=
-  [ ROAdd [97; 47; 98] (RNode 2 false [71; 69; 84]); ROAdd [47; 97; 47] (RNode 1 true []);
-    ROAdd [47; 47; 97] (RNode 3 true []); ROAdd [] (RNode 4 true []); RODefault 9 ].
+  [ ROAdd [97; 47; 98] (Some 2) false [71; 69; 84]; ROAdd [47; 97; 47] (Some 1) true [];
+    ROAdd [47; 47; 97] (Some 3) true []; ROAdd [] (Some 4) true []; RODefault (Some 9);
+    ROAdd [99] None false []; ROIndex None ].
 
 Example ex_router :
   let r := fst (router_run new_router ex_router_ops) in
   let get := [71; 69; 84] in
-  snd (router_run new_router ex_router_ops) = [Some true; Some true; Some false; None; Some true] /\
+  snd (router_run new_router ex_router_ops) =
+    [Some true; Some true; Some false; None; Some true; None; Some true] /\
   (* /a/b: the file, complete match *)
   (exists c', router_serve r (new_ctx [47; 97; 47; 98] get) = ONode 2 c' /\ rel c' = []) /\
   (* /a/b/ and /a/b/c: longest match is the file, not complete: default, not the directory /a *)
@@ -286,3 +388,36 @@ Example ex_host :
   host_serve (host_build [([104], 1); ([105], 2); ([104], 3)]) [104] = Some 3 /\
   host_serve (host_build [([104], 1)]) [72] = None.
 Proof. vm_compute. split; reflexivity. Qed.
+
+(** Round 2 examples. "GET /a%2Fb//c/": the escaped slash separates. *)
+Example ex_entry_escape :
+  http_parse (RawReq [71; 69; 84] [47; 97; 37; 50; 70; 98; 47; 47; 99; 47] (Some [104]) true)
+    = HReq [47; 97; 47; 98; 47; 47; 99; 47] [104] /\
+  segs [47; 97; 47; 98; 47; 47; 99; 47] = [[97]; [98]; [99]] /\
+  path_is_dir [47; 97; 47; 98; 47; 47; 99; 47] = true.
+Proof. vm_compute. repeat split; reflexivity. Qed.
+
+(** A malformed escape, a missing Host on 1.1, "OPTIONS *", "CONNECT h:1",
+    absolute-form: the handler is not reached / sees the absolute host. *)
+Example ex_entry_forms :
+  http_parse (RawReq [71; 69; 84] [47; 37; 122] (Some [104]) true) = HBad /\
+  http_parse (RawReq [71; 69; 84] [47] None true) = HBad /\
+  http_parse (RawReq [71; 69; 84] [47] None false) = HReq [47] [] /\
+  http_parse (RawReq m_options [42] (Some [104]) true) = HOptionsStar /\
+  http_parse (RawReq [71; 69; 84] [42] (Some [104]) true) = HReq [42] [104] /\
+  http_parse (RawReq m_connect [104; 58; 49] (Some [120]) true) = HReq [] [104; 58; 49] /\
+  http_parse (RawReq [71; 69; 84] (http_scheme ++ [104; 58; 49; 47; 97]) (Some [120]) true) = HReq [47; 97] [104; 58; 49].
+Proof. vm_compute. repeat split; reflexivity. Qed.
+
+(** An admin, handlers that keep the context: all three tiers run, each
+    seeing the admin (the frame theorem is not vacuous). *)
+Example ex_internal_all :
+  frame_ok (ex_sset [117] 1%Z) /\
+  fst (serve_internal (ex_sset [117] 1%Z) (Ident [] 0%Z [47; 120])) =
+    [ EServe TAuth (Ident [] 0 [47; 120]); ESetup (Ident [] 0 [47; 120]);
+      EServe TResource (Ident [117] 1 [47; 120]); EServe TGuest (Ident [117] 1 [47; 120]);
+      EServe TUser (Ident [117] 1 [47; 120]); EServe TAdmin (Ident [117] 1 [47; 120]) ].
+Proof.
+  split; [|vm_compute; reflexivity].
+  split; intros h [= <-]; apply keeps_preserves; intros c; reflexivity.
+Qed.
